@@ -1,7 +1,7 @@
 #!/bin/bash
 # re-runs every recorded seeded change against the current checks in one scratch worktree of /repo (removed afterwards)
 cd "$(dirname "$0")/.."
-wt=/tmp/seed_regress
+wt=/tmp/seed_regress${SEED_WT_SUFFIX}   # SEED_WT_SUFFIX lets several invocations (disjoint property sets) run side by side
 git -C /repo worktree remove --force $wt 2>/dev/null
 git -C /repo worktree add --detach $wt HEAD >/dev/null 2>&1 || exit 9
 cp /repo/python/numqi/_version.py $wt/python/numqi/_version.py
